@@ -32,10 +32,15 @@ def events(seed, npts):
         for _ in range(60):
             lo.append(np.nextafter(lo[-1], -np.inf))
         series.append(np.array(sorted(set(lo + w))))
+    # neighbourhoods of every boundary on a logarithmic scale (1e-12 .. 1 km either side): between the ulp neighbours and the lattice
+    for k in range(1, len(zb)):
+        d = 10.0 ** np.linspace(-12.0, 0.0, 49)
+        series.append(np.clip(np.sort(np.concatenate([zb[k] - d, [zb[k]], zb[k] + d])), 0.0, 120.0))
     for si, z in enumerate(series):
         pa = A.us_std_atm_pressure_from_altitude(z.copy())
         po = O.us_std_atm_pressure_from_altitude(z.copy())
-        back = A.us_std_atm_altitude_from_pressure(pa.copy())
+        # the round trip alternates between the two copies (each must invert itself and the other)
+        back = (A if si % 2 == 0 else O).us_std_atm_altitude_from_pressure((pa if si % 3 else po).copy())
         for i in range(len(z)):
             ev.append({"kind": "pz", "z": bits(z[i]), "pa": bits(pa[i]), "po": bits(po[i]), "back": bits(back[i]), "ser": si,
                        "_m": {"z": float(z[i]), "P": float(pa[i]), "form": "array"}})
@@ -64,14 +69,40 @@ def events(seed, npts):
         for _ in range(30):
             v = np.nextafter(v, 0)
             edge.append(v)
+    for pb in const.std_atm_pressure[1:-1]:
+        r = 10.0 ** np.linspace(-14.0, -1.0, 40)
+        edge += list(float(pb) * (1.0 + r)) + list(float(pb) * (1.0 - r))
     P = np.concatenate([P, edge])
     P = P[(P > 0) & (P <= 101325.0)]
     za = A.us_std_atm_altitude_from_pressure(P.copy())
     zo = O.us_std_atm_altitude_from_pressure(P.copy())
     back = A.us_std_atm_pressure_from_altitude(za.copy())
+    backo = O.us_std_atm_pressure_from_altitude(zo.copy())
     for i in range(len(P)):
-        ev.append({"kind": "zp", "P": bits(P[i]), "za": bits(za[i]), "zo": bits(zo[i]), "back": bits(back[i]),
-                   "_m": {"P": float(P[i]), "z": float(za[i]), "form": "array"}})
+        ev.append({"kind": "zp", "P": bits(P[i]), "za": bits(za[i]), "zo": bits(zo[i]), "back": bits(back[i] if i % 2 else backo[i]),
+                   "_m": {"P": float(P[i]), "z": float(za[i]), "form": "array", "back_copy": "atmosphere" if i % 2 else "optical"}})
+    # ---- histories: ONE buffer object reused across calls and changed in place in between (a stepping loop: z += dz), lists, views;
+    # every call must answer for the values the argument holds NOW
+    for name, M in (("atmosphere", A), ("optical", O)):
+        buf = np.array([1.0, 11.5, 33.0, 70.0])
+        pbuf = np.array([90000.0, 5000.0, 30.0, 0.5])
+        z0 = np.asarray(3.0)
+        for step in range(4):
+            pa = np.array(M.us_std_atm_pressure_from_altitude(buf), dtype=float)
+            back = np.array(M.us_std_atm_altitude_from_pressure(pa.copy()), dtype=float)
+            za = np.array(M.us_std_atm_altitude_from_pressure(pbuf), dtype=float)
+            bk = np.array(M.us_std_atm_pressure_from_altitude(za.copy()), dtype=float)
+            p0 = float(np.asarray(M.us_std_atm_pressure_from_altitude(z0), dtype=float).reshape(-1)[0])
+            for i in range(len(buf)):
+                ev.append({"kind": "pz", "z": bits(buf[i]), "pa": bits(pa[i]), "po": bits(pa[i]), "back": bits(back[i]), "ser": 7000 + 10 * step + i,
+                           "_m": {"z": float(buf[i]), "P": float(pa[i]), "form": "reused buffer", "copy": name, "step": step}})
+                ev.append({"kind": "zp", "P": bits(pbuf[i]), "za": bits(za[i]), "zo": bits(za[i]), "back": bits(bk[i]),
+                           "_m": {"P": float(pbuf[i]), "z": float(za[i]), "form": "reused buffer", "copy": name, "step": step}})
+            ev.append({"kind": "pz", "z": bits(float(z0)), "pa": bits(p0), "po": bits(p0), "back": bits(float(z0)), "ser": 7900 + step,
+                       "_m": {"z": float(z0), "P": p0, "form": "reused 0-d buffer", "copy": name, "step": step}})
+            buf += 7.25                      # in place: the same object, new contents
+            pbuf *= 0.37
+            z0[...] = float(z0) + 20.0
     # arrays that mix the end points with ordinary values: every element is judged
     mixP = np.array([0.0, 5.0, 101325.0, 1e-3, 0.0, 22632.0])
     za, zo = A.us_std_atm_altitude_from_pressure(mixP.copy()), O.us_std_atm_altitude_from_pressure(mixP.copy())
